@@ -21,6 +21,9 @@ pub fn bases(thorough: bool) -> Vec<Base> {
     ];
     // repeated Content-Length: the last acceptable occurrence wins, the limit applies to it
     variants.push((vec![("Content-Length", "60000".into()), ("Content-Length", "5".into())], b"hello".to_vec()));
+    // repeated recognised headers: what a later line may and may not change
+    variants.push((vec![("Transfer-Encoding", "chunked".into()), ("Transfer-Encoding", "identity".into())], vec![]));
+    variants.push((vec![("Transfer-Encoding", "identity".into()), ("Accept", "text/plain".into()), ("Transfer-Encoding", "chunked".into()), ("Accept", "application/json".into())], vec![]));
     if thorough {
         variants.push((vec![("Content-Length", "4294967295".into()), ("X-a", "1".into()), ("Content-Length", "0".into())], vec![]));
         variants.push((vec![("content-length", " 12 ".into()), ("X-b", "v:w".into())], b"\r\n\r\nGET / HT".to_vec()));
